@@ -16,7 +16,7 @@ F = CFGF
 SUB = [Opt('int', b'a', 0, 1), Opt('strl', b'l', 0, b'{x}')]
 SCHEMA = [Opt('int', b'i', 0, 7), Opt('str', b's', 0, b'd'), Opt('intl', b'il', 0, b'{1,2}'), Opt('bool', b'b', 0, 0),
           Opt('sec', b'sec', 0, None, SUB), Opt('sec', b't', F['MULTI'] | F['TITLE'], None, SUB), Opt('func', b'fn', func='user:0'),
-          Opt('flt', b'f', 0, 0.5)]
+          Opt('flt', b'f', 0, 0.5), Opt('sec', b'kv', F['KEYSTRVAL'], None, [Opt('int', b'lvl', 0, 1)])]
 TEXTS = [b'i = 5 s = "a b" il = { 1 , 2 , } b = on', b'sec { a = 2 l += { y , "z" } } t x { a = 3 } t "y y" { }',
          b'fn ( a , "b c" ) fn ( ) il += 9 f = 1.5', b'il = { } sec { } i = 0x10',
          b'i = = 2', b'il = { 1 2 }', b'sec { a = }', b'bogus = 1', b't { }', b'i = 5 }', b'fn ( a b )']
@@ -70,6 +70,8 @@ def generate(rng, tier):
                 continue
             cm = {'c': b'/*' + note + b'*/', 'hash': b'#' + note + b'\n', 'slashes': b'//' + note + b'\n'}[style]
             for item, opt in ((b'i = 5', b'i'), (b'il = {3, 4}', b'il'), (b's = "v"', b's'), (b'sec { ' + cm + b' a = 2 }', b'sec|a'),
+                              # a key created by the assignment in a free-form section is annotated like a declared option
+                              (b'kv { ' + cm + b' newkey = v }', b'kv|newkey'), (b'kv { lvl = 2 ' + cm + b' k2 = "w w" }', b'kv|k2'), (b'kv { ' + cm + b' lvl = 3 }', b'kv|lvl'),
                               (b'il = {3, 4,}', b'il'), (b'il += {5}', b'il'), (b'il = 6', b'il'), (b'b = on', b'b'), (b'f = 1.5', b'f'),
                               # further comments INSIDE the item do not replace the annotation taken from the one in front
                               (b'i = /* inner */ 5', b'i'), (b'il = {3, /* in */ 4}', b'il'), (b'il = { # x\n 3 }', b'il'),
@@ -78,7 +80,7 @@ def generate(rng, tier):
                               (b'i = 5 i = 6', b'i'), (b'il = {3} il = {4, 5}', b'il'), (b's = "v"\ns = "w"', b's'), (b'f = 1.5 b = on f = 2.5', b'f'),
                               (b'il = {3} il += {4} il = 5', b'il')):
                 n += 1
-                text = (cm + b' ' + item) if opt != b'sec|a' else item
+                text = (cm + b' ' + item) if b'|' not in opt else item
                 if n % 3 == 0:
                     # earlier tokens of the same scan: a long string, then a shorter one, then a comment
                     text = b's = "' + b'L' * (20 + n % 50) + b'" s = "' + b'x' * (n % 7) + b'" # ' + b'c' * (n % 30) + b'\n' + text
@@ -129,7 +131,7 @@ def oracle(scn, il):
     parse, dump, pr, rt, dump1 = body[-5:]
     note = scn.meta['note']
     name = scn.meta['opt'].split(b'|')[-1]
-    m = re.search(r'\(opt %s \w+ \d+ \d \d \d (\S+?)[ )]' % hx(name), dump if b'|' not in scn.meta['opt'] else dump[dump.index('(cfg 736563'):])
+    m = re.search(r'\(opt %s \w+ \d+ \d \d \d (\S+?)[ )]' % hx(name), dump if b'|' not in scn.meta['opt'] else dump[dump.index('(cfg ' + hx(scn.meta['opt'].split(b'|')[0])):])
     got = m.group(1) if m else '?'
     if scn.meta['class'].endswith('hash'):
         raw = note.lstrip(b'#')
@@ -149,7 +151,7 @@ def oracle(scn, il):
         if b'/* ' + want_text + b' */' not in text:
             out.append(('annotation-not-printed', '%s: print output lacks the annotation %r:\n%s' % (scn.id, want_text, text.decode('latin-1'))))
         else:
-            src = dump1 if b'|' not in scn.meta['opt'] else dump1[dump1.index('(cfg 736563'):]
+            src = dump1 if b'|' not in scn.meta['opt'] else dump1[dump1.index('(cfg ' + hx(scn.meta['opt'].split(b'|')[0])):]
             m1 = re.search(r'\(opt %s \w+ \d+ \d \d \d (\S+?)[ )]' % hx(name), src)
             if 'rc=0 ' not in rt or not m1 or m1.group(1) != hx(trim(want_text)):
                 out.append(('annotation-not-reread', '%s: annotation %r after print and re-parse is %s (%s)' % (
